@@ -167,6 +167,19 @@ def independence(rid, op, v0, v1, v2, v3, v4, v5):
         runt.warm(p, out)
     kw = {a: x for a, x in zip(p.root_args(out), vals) if a != dparam}
     exp, _, _, _ = runt.ref_eval(t, out, kw)
+    bfs = next((fs for fs in t if fs.bound), None)
+    if bfs is not None:
+        # update_bound on a function of one object must not leak into the other (the functions are copies)
+        with NoTracing():
+            q2, ren2 = _compose(p, t, [op])
+        bprm = next(iter(bfs.bound))
+        kwb = {a: x for a, x in zip(p.root_args(out), vals)}
+        expb, _, _, _ = runt.ref_eval(t, out, kwb)
+        qf = next(f for f in q2.functions if f.__name__ == bfs.name)
+        bname = next(x for x in qf.parameters if x == bprm or x.endswith("." + bprm) or x == ren2.get(bprm))
+        qf.update_bound({bname: v5})
+        if not (p(out, **kwb) == expb):
+            return fail("update_bound on the rewritten pipeline changed the original")
     if dparam is not None:
         q.update_defaults({ren.get(dparam, dparam): v5})
         if not (p(out, **kw) == exp):
@@ -405,7 +418,7 @@ CANARIES["copy_shares_function_objects"] = _canary_copy_shares_functions
 def obligations(tier):
     thorough = tier == "thorough"
     obs = []
-    rids = ["R2", "R3", "R5", "R7"] + (["R1", "R4", "R8", "R9", "R10"] if thorough else [])
+    rids = ["R2", "R3", "R5", "R7", "R9"] + (["R1", "R4", "R8", "R10"] if thorough else [])
     singles = [(op,) for op in REWRITES]
     pairs = [("copy", "rename"), ("rename", "scope"), ("join", "rename"), ("scope", "pickle"), ("pickle", "or"), ("scope_roundtrip", "rename")]
     triples = [("copy", "rename", "scope"), ("join", "scope", "pickle"), ("rename", "or", "scope_roundtrip")]
@@ -426,10 +439,10 @@ def obligations(tier):
                 )
             )
         for op in ("copy", "pickle", "join", "rename", "scope"):
-            if any(fs.defaults for fs in t):
+            if any(fs.defaults or fs.bound for fs in t):
                 obs.append(
                     Ob(f"indep_{rid}_{op}", VALS, [], f"H.independence({rid!r}, {op!r}, {VARGS})", timeout=200,
-                       bounds=f"{rid}: {op} then update_defaults on either object does not affect the other",
+                       bounds=f"{rid}: {op} then update_defaults / update_bound on one object does not affect the other",
                        canaries=("copy_shares_function_objects",) if (rid, op) == ("R3", "copy") else ())  # fmt: skip
                 )
         for k, sub in enumerate(_nestable_subsets(t)):
